@@ -64,7 +64,7 @@ theorem paramRepr_some_eq (pr : Char → Bool) (p : Param) (t : Str) (hp : p.isP
     (hr : paramRepr pr p = some t) : t = seg pr (p.name, canon p.value) := by
   unfold paramRepr at hr
   cases hi : p.ignore
-  · cases hc : (p.dpd && isDefaultVal p)
+  · cases hc : (p.dpd && isDefaultVal pr p)
     · simp only [hi, hc, Bool.false_eq_true, if_false, Option.some.injEq] at hr
       rw [← hr]
       simp [seg, valueRepr, hp, reprInst]
